@@ -291,7 +291,7 @@ fn encoder_cases(args: &util::Args, out: &mut String, stats: &mut String) {
             let _ = writeln!(out, "q{}\tPAIR\t{}\t{}\t{}\t{}\t{}", id, enc, ty_sexp(&t1).to_text(), ty_sexp(&t2).to_text(), f(&t1), f(&t2));
             id += 1;
         }
-        let ident_pairs = [("a#b", "_goml_a_b"), ("a#b", "a_b#"), ("é", "#xc3a9#")];
+        let ident_pairs = [("a#b", "_goml_a_b"), ("a#b_c", "a_b#c"), ("é", "#xc3a9#")];
         for (x, y) in ident_pairs {
             let _ = writeln!(out, "q{}\tPAIR\tgo_ident\t{}\t{}\t{}\t{}", id, a(x).to_text(), a(y).to_text(), mangle::go_ident(x), mangle::go_ident(y));
             id += 1;
